@@ -2,6 +2,7 @@ CONSTANTS
   MaxLen = 4
   Cap = 2
   AllowClose = TRUE
+  StallFire = FALSE
   FixedTimer = FALSE
 SPECIFICATION GSpec
 INVARIANT EmitSched
